@@ -74,7 +74,19 @@ func firstPath(args string) string {
 	if m == nil {
 		return ""
 	}
-	return m[1]
+	return unescape(m[1])
+}
+
+// unescape undoes strace's C-style escapes (bytes outside printable ASCII are written as octal escapes: a file called
+// "ü.go" is "\303\274.go" in the log).
+func unescape(s string) string {
+	if !strings.Contains(s, "\\") {
+		return s
+	}
+	if u, err := strconv.Unquote("\"" + s + "\""); err == nil {
+		return u
+	}
+	return s
 }
 
 // FSTrace interprets a syscall list: which files were opened for reading / writing, written
@@ -133,7 +145,7 @@ func FSTrace(events []Sys, cwd string) []FSEvent {
 				if strings.HasPrefix(e.Name, "rename") && i == len(ps)-1 && len(ps) >= 2 {
 					kind = "rename-dest"
 				}
-				out = append(out, FSEvent{Kind: kind, Path: abs(m[1]), Sys: e.Name, OK: ok, Raw: raw})
+				out = append(out, FSEvent{Kind: kind, Path: abs(unescape(m[1])), Sys: e.Name, OK: ok, Raw: raw})
 			}
 			if len(ps) == 0 {
 				out = append(out, FSEvent{Kind: "mutate", Path: "", Sys: e.Name, OK: ok, Raw: raw})
